@@ -24,6 +24,9 @@ RULE = (
     "names beneath cuts and empty non-terminals, and names before the first / after the last. Distinct by (relativize, step kind, "
     "number of cuts, nested cuts present, query class)."
 )
+RULE += " " + (
+    "Also: zones of class CH/HS, owners in the non-native spelling and in varying letter case, transactions abandoned through an exception, versions held by open readers re-checked against the reference of their own content, delegation-heavy zones (380-640 cuts)."
+)
 ASSUMPTIONS = [
     "reference B6 (DESIGN.md Appendix B6): flags, delegation index and bounds as functions of content",
     "flags and the delegation index are read from the committed version object (version.nodes[*].flags, version.delegations)",
